@@ -1855,7 +1855,8 @@ def dask_groupby_agg(
     array, by = _unify_chunks(array, by)
 
     # tokenize here since by has already been hashed if its numpy
-    token = dask.base.tokenize(array, by, agg, expected_groups, axis, method, sort)
+    # (the engine too: engines agree only up to floating-point rounding, so results that differ in nothing else must not share keys)
+    token = dask.base.tokenize(array, by, agg, expected_groups, axis, method, sort, engine)
 
     # preprocess the array:
     #   - for argreductions, this zips the index together with the array block
